@@ -364,7 +364,10 @@ class Exec:
             if feasible(st.pc, z3.Not(z3.Or(inb, z3.And(i < 0, i >= -base.length)))):
                 s_bad = st.copy(); s_bad.pc.append(z3.Not(z3.Or(inb, z3.And(i < 0, i >= -base.length))))
                 yield s_bad, Raise(self.new_builtin_exc(s_bad, "IndexError", ["list index out of range"]))
-            if feasible(st.pc, z3.And(i < 0, i >= -base.length)): raise Unsupported("negative symbolic index")
+            if feasible(st.pc, z3.And(i < 0, i >= -base.length)):
+                sn = st.copy(); sn.pc.append(z3.And(i < 0, i >= -base.length))
+                yield sn, Sym(base.elem_ty, base.at(z3.simplify(base.length + i)))
+                if not feasible(st.pc, inb): return
             st.pc.append(inb)
             yield st, Sym(base.elem_ty, base.at(i)); return
         if isinstance(base, Sym) and base.ty.kind == "tuple":
@@ -784,6 +787,14 @@ class Exec:
                 try: del base[idx]
                 except (IndexError, KeyError) as e:
                     yield st, ("raise", self.new_builtin_exc(st, type(e).__name__, [str(e)])); return
+            elif isinstance(base, UFL) and isinstance(idx, (int, Sym)) and not isinstance(idx, bool):
+                # del on a UF list held in a local / attribute: rebind the target (no aliasing assumed, as for append)
+                k = lift(idx).z; n0 = base.length; pos = z3.If(k < 0, n0 + k, k)
+                if feasible(st.pc, z3.Or(pos < 0, pos >= n0)):
+                    sb = st.copy(); sb.pc.append(z3.Or(pos < 0, pos >= n0)); yield sb, ("raise", self.new_builtin_exc(sb, "IndexError", ["list assignment index out of range"]))
+                st.pc.append(z3.And(pos >= 0, pos < n0))
+                new = UFL(base.elem_ty, (lambda i, r=base, pos=pos: z3.If(i < pos, r.at(i), r.at(i + 1))), n0 - 1)
+                for s2, _ in self.assign(st, tgt.value, new): st = s2
             else: raise Unsupported("del on a symbolic container")
         yield st, ("next",)
     def st_Pass(self, node, st): yield st, ("next",)
